@@ -513,6 +513,13 @@ func (fr *Frame) branch(blk *ssa.BasicBlock, x *ssa.If, stop *ssa.BasicBlock) (e
 			}
 		}
 	}
+	if join && it.Cfg.LoopUnroll > 0 && fr.inLoop && !info.inLoop[blk] {
+		// loop-unrolling mode: a data-dependent test in a helper called from the unrolled loop (a read-and-panic
+		// wrapper) is enumerated like the loop's own tests, so that its outcome becomes a path assumption
+		if _, isPred := cond.(PredV); isPred && it.oracle != nil {
+			join = false
+		}
+	}
 	if top, isTop := cond.(Top); isTop && !join {
 		it.event("top-branch", fr.fn, ifPos(x), "branch on an unknown value (%s)", top.Why)
 		join = true
@@ -911,6 +918,9 @@ func (it *Interp) assumeTerm(p *Term, v bool) {
 		as := map[*PAtom]bool{}
 		for i, a := range atoms {
 			as[a] = mask>>i&1 == 1
+		}
+		if !feasibleAssign(atoms, as) {
+			continue
 		}
 		ev := p.evalPure(as)
 		if ev.Sign() != 0 && ev.Cmp(bigOne) != 0 {
